@@ -349,7 +349,7 @@ class Node(ModelElement):
         node_id = self.topo.graph_model.find_component_by_name(parent_node_id=self.node_id,
                                                                component_name=name)
 
-        for i in self.components[name].interface_list:
+        for i in self.topo._with_sub_interfaces(self.components[name].interface_list):
             # disconnect if connected to a network service
             peers = i.get_peers(itype=InterfaceType.ServicePort)
             if peers:
